@@ -89,7 +89,7 @@ class Ctx:
     # ---- running the model ------------------------------------------------
     def coq(self, exprs, imports, prelude='', tag='cases', timeout=900):
         d = os.path.join(self.workdir, tag)
-        jobs = 8 if self.tier == 'quick' else 14
+        jobs = 6 if self.tier == 'quick' else 10
         return coqrun.coq_eval(exprs, imports, d, prelude=prelude, jobs=jobs, timeout=timeout)
 
     # ---- bookkeeping ------------------------------------------------------
